@@ -10,7 +10,7 @@ import (
 func init() { register("C27", propC27) }
 
 func propC27(c *Check) {
-	c.Explain = "Decides the guard structure of the durable membership history: (1) NODESTATEQUEUE keys are written only by writeNodePledge/Accept/Cancel/Remove, which are called only from writeUTXO on the matching output type, each writing its own state constant under nodeStateQueueKey(signer, timestamp); (2) pledge: every latest node state is in {ACCEPTED, REMOVED, CANCELLED} and no node has the same signer key or transaction (per-iteration gates), before the write; (3) accept/cancel: the last record is PLEDGING with equal signer and payee keys (genesis flag is the only exemption, for accept); (4) remove: the last record is not PLEDGING, the target is found by signer key, payee equal and state ACCEPTED; (5) readAllNodes keeps the latest record per signer (map overwrite while ranging in key order, order assertion panics) and skips records after the threshold; (6) validation mirrors: validateNodePledge gates on non-pending states and unused signer key; validateNodeAccept/Cancel accept only with exactly one pledging node whose pledge transaction is the spent input."
+	c.Explain = "Decides the guard structure of the durable membership history: (1) NODESTATEQUEUE keys are written only by writeNodePledge/Accept/Cancel/Remove, which are called only from writeUTXO on the matching output type, each writing its own state constant under nodeStateQueueKey(signer, timestamp); (2) pledge: every latest node state is in {ACCEPTED, REMOVED, CANCELLED} and no node has the same signer key or transaction (per-iteration gates), before the write; (3) accept/cancel: the last record is PLEDGING with equal signer and payee keys (genesis flag is the only exemption, for accept); (4) remove: the last record is not PLEDGING, the target is found by signer key, payee equal and state ACCEPTED; (4b) each writer reads the history up to its own timestamp plus the accept (pledge) period, so already-durable later records are part of what the guards see; (5) readAllNodes keeps the latest record per signer (map overwrite while ranging in key order, order assertion panics) and skips records after the threshold; (6) validation mirrors: validateNodePledge gates on non-pending states and unused signer key; validateNodeAccept/Cancel accept only with exactly one pledging node whose pledge transaction is the spent input."
 	c.NotCov = "sequences of operations (only each transition's guard is decided); the timestamp arithmetic of the lookup offset."
 	c.Floor(30)
 	w := c.W
@@ -40,7 +40,10 @@ func propC27(c *Check) {
 			c.Require(okd, "dispatch", "storage.writeUTXO|"+n, n+" is applied exactly for outputs of type "+typeOf[n], "dispatch changed")
 		}
 	}
-	nodesT := Call("storage.readAllNodes", Param("txn"), nil, ConstBool(true))
+	// the history is read up to timestamp + the accept period: records already durable with a later
+	// timestamp are seen, so an operation carrying an older timestamp cannot slip under them
+	aheadA := BinEither(token.ADD, Param("timestamp"), Conv(w.ConstNamed("config", "KernelNodeAcceptPeriodMinimum")))
+	nodesT := Call("storage.readAllNodes", Param("txn"), aheadA, ConstBool(true))
 	last := LastOf(nodesT)
 	stEq := func(base VM, path, cn string) VM {
 		return BinEither(token.EQL, PathFrom(base, path), w.ConstNamed("common", cn))
@@ -101,7 +104,8 @@ func propC27(c *Check) {
 	}
 	// pledge
 	if f := c.F("storage.writeNodePledge"); f != nil {
-		nodesL := Call("storage.readAllNodes", Param("txn"), nil, ConstBool(false))
+		aheadP := BinEither(token.ADD, Param("timestamp"), Conv(w.ConstNamed("config", "KernelNodePledgePeriodMinimum")))
+		nodesL := Call("storage.readAllNodes", Param("txn"), aheadP, ConstBool(false))
 		l1 := c.RangeLoop(f, "state scan#1/2", nodesL)
 		l2 := c.RangeLoop(f, "identity scan#2/2", nodesL)
 		c.LoopGateAny(f, l1, "n.State in {ACCEPTED, REMOVED, CANCELLED}", []Gate{
